@@ -200,11 +200,11 @@ func shortStack(stack string) string {
 	var out []string
 	for _, ln := range strings.Split(stack, "\n") {
 		ln = strings.TrimSpace(ln)
-		if strings.HasPrefix(ln, "/repo/") {
+		if j := strings.Index(ln, "/repo/"); j >= 0 && !strings.Contains(ln, "/verif/") {
 			if i := strings.Index(ln, " +0x"); i > 0 {
 				ln = ln[:i]
 			}
-			out = append(out, strings.TrimPrefix(ln, "/repo/"))
+			out = append(out, ln[j+len("/repo/"):])
 			if len(out) >= 6 {
 				break
 			}
@@ -227,7 +227,8 @@ func PanicInRepo(cls string) func(v interface{}, stack string) string {
 			if strings.Contains(ln, "/runtime/") || strings.Contains(ln, "kit/run.go") || strings.Contains(ln, "kit/bubble.go") || strings.Contains(ln, "/src/") || strings.Contains(ln, "/pkg/mod/") {
 				continue
 			}
-			if strings.HasPrefix(ln, "/repo/") {
+			// /repo/... on the real tree, /tmp/mutant.*/repo/... under mutant.sh
+			if strings.HasPrefix(ln, "/repo/") || strings.Contains(ln, "/repo/") && !strings.Contains(ln, "/verif/") {
 				return cls
 			}
 			return ""
